@@ -7,7 +7,7 @@
    schedule of all the goroutines holding ends of the streams; the arguments [ch] of
    ORecv / OFwd are the outcomes of Go's [select]s.  "forall fuel ops" therefore quantifies
    over every tree, every item sequence, every capacity and every interleaving. *)
-From Eino Require Import Base.Util Model.Stream Proofs.Stream Proofs.StreamRel Proofs.StreamWf Proofs.StreamClose Proofs.StreamLink Proofs.StreamSem Proofs.StreamEof Proofs.StreamOnce Proofs.StreamTrace Proofs.StreamRank Proofs.StreamTotal Proofs.StreamProg Proofs.StreamOwned.
+From Eino Require Import Base.Util Model.Stream Model.StreamIlv Proofs.Stream Proofs.StreamRel Proofs.StreamWf Proofs.StreamClose Proofs.StreamLink Proofs.StreamSem Proofs.StreamEof Proofs.StreamOnce Proofs.StreamTrace Proofs.StreamRank Proofs.StreamTotal Proofs.StreamProg Proofs.StreamOwned Proofs.StreamIlv.
 
 (* ------------------------------------------------------------------ base streams *)
 
@@ -262,6 +262,16 @@ Theorem delivery_on_the_trace : forall fuel ops bs G,
 Proof. exact run_tree_delivery_trace. Qed.
 Print Assumptions delivery_on_the_trace.
 
+(* interleaving_check_is_the_spec: the function the correspondence check evaluates on the
+   implementation's histories ([ilv_fast]: a breadth-first sweep over the reachable position
+   vectors, polynomial where the backtracking [is_interleaving_of] is exponential on strands
+   that share items) decides exactly [Shuf], the predicate the tree theorems establish for the
+   model's logs; in particular what it accepts the backtracking checker accepts too. *)
+Theorem interleaving_check_is_the_spec : forall full obs strs,
+  ilv_fast full obs strs = true <-> Shuf full obs strs.
+Proof. exact ilv_fast_spec. Qed.
+Print Assumptions interleaving_check_is_the_spec.
+
 (* ------------------------------------------------------------------ close propagation *)
 
 (* [legal_run2 fuel ops]: a legal run in which, moreover, user code closes every reader at
@@ -422,6 +432,13 @@ Example ex_closed :
   let G := snd (run 50 init_state ex_ops) in
   (map s_rclosed (streams (st_store G)), map p_srcclosed (parents (st_store G)), map f_st (st_fwds G))
   = ([1; 1; 1], [1], [FDone]).
+Proof. vm_compute. reflexivity. Qed.
+
+Example ex_ilv_fast :
+  (ilv_fast true [IVal 1%N; IErr 9%N; IErr 9%N; IVal 2%N; IVal 1%N] [[IErr 9%N; IVal 1%N]; [IVal 1%N; IErr 9%N; IVal 2%N]],
+   ilv_fast true [IVal 1%N; IErr 9%N] [[IErr 9%N; IVal 1%N]],
+   ilv_fast false [IVal 1%N] [[IVal 1%N; IVal 2%N]; []])
+  = (true, false, true).
 Proof. vm_compute. reflexivity. Qed.
 
 Example ex_array_merge :
